@@ -61,6 +61,7 @@ class Tracker:
         self.fam = fam
         self.init = False
         self.arch = "x64"
+        self.initbase = None        # base address passed to init() (hex string) - what reinit restores
         self.attached = []
         self.clear_code()
         self.cursec = {i: None for i in range(4)}
@@ -74,6 +75,7 @@ class Tracker:
         self.home = {}          # label id -> section it lives in
         self.bound = set()      # labels bound (or scheduled to be bound by a builder node)
         self.names = 0
+        self.relocs = False         # an embed_label relocation exists (then `link` patches bytes: outside the model)
         self.cc_funcs = False
         self.cc_done = False
 
@@ -92,10 +94,12 @@ class Tracker:
             if not self.init:
                 self.init = True
                 self.arch = w[1] if len(w) > 1 else "x64"
+                self.initbase = w[2] if len(w) > 2 else None
                 self.nsecs = 1
         elif k == "reset":
             if self.init:
                 self.init = False
+                self.initbase = None
                 self.attached = []
                 self.clear_code()
                 self.cursec = {i: None for i in range(4)}
@@ -126,6 +130,9 @@ class Tracker:
         elif k in ("label", "nlabel"):
             if int(w[1]) in self.attached:
                 self.nlabels += 1
+        elif k == "elabel":
+            if int(w[1]) in self.attached:
+                self.relocs = True
         elif k == "section":
             if int(w[1]) in self.attached:
                 self.cursec[int(w[1])] = self.nsecs
@@ -207,7 +214,8 @@ def gen_history(rng, tr, n, modelled=True):
         r = rng.random()
         if not tr.init:
             if r < 0.75:
-                emit("init %s" % (rng.choice(("a64", "a64", "a64", "x64")) if tr.fam == "a64" else rng.choice(("x64", "x64", "x86", "x64", "a64"))))
+                emit("init %s%s" % ((rng.choice(("a64", "a64", "a64", "x64")) if tr.fam == "a64" else rng.choice(("x64", "x64", "x86", "x64", "a64"))),
+                                   rng.choice(("", "", "", " 400000", " 7f0000100000"))))
             elif r < 0.85:
                 emit("attach %d" % rng.randrange(4))          # fails: InvalidArch
             elif r < 0.92:
@@ -233,6 +241,13 @@ def gen_history(rng, tr, n, modelled=True):
             emit("init x64")                                   # fails: AlreadyInitialized
         elif r < 0.56:
             emit("heap %d" % rng.randrange(1 << 20))
+        elif r < 0.60 and (not modelled or (tr.nsecs == 1 and not tr.relocs)):
+            # relocate_to_base / JitRuntime::add: the end of "code generation as usual" (modelled only in the state where it
+            # patches nothing: one section, no relocation)
+            if not modelled and tr.fam == "x86" and tr.arch == "x64" and rng.random() < 0.5:
+                emit("jitadd")
+            else:
+                emit("link %x" % rng.choice((0x10000, 0x7F0000000000, 0x400000)))
         elif not modelled and r < 0.72 and tr.attached:
             i = rng.choice(tr.attached)
             if AVOID["refinalize"] and EM_KIND[i] == "cmp" and tr.cc_done:
@@ -274,7 +289,8 @@ def gen_case(rng, modelled, hist_len):
             emit("reset %s" % rng.choice(("soft", "hard")))
         if rng.random() < 0.3:
             emit("heap %d" % rng.randrange(1 << 20))
-        emit("init %s" % (good_arch if (fam == "a64" or not modelled) else rng.choice(("x64", "x64", "x86"))))
+        emit("init %s%s" % ((good_arch if (fam == "a64" or not modelled) else rng.choice(("x64", "x64", "x86"))),
+                            rng.choice(("", "", "", " 400000"))))
         order = rng.sample(range(4), rng.randrange(1, 5))
         for i in order:
             emit("attach %d" % i)
@@ -287,7 +303,7 @@ def gen_case(rng, modelled, hist_len):
             emit("attach %d" % i)
     if not tr.attached:
         emit("attach %d" % rng.randrange(4))
-    arch, order = tr.arch, list(tr.attached)
+    arch, order = tr.arch + ((" " + tr.initbase) if tr.initbase else ""), list(tr.attached)
     # the program, generated against the configuration reached
     state = rng.getstate()
     tr_p = tr
@@ -334,14 +350,26 @@ def shape_cases(rng):
         other = addr + 0x100000000
         fin = [] if em == 0 else ["finalize %d" % em]
         hist = ["init x64", "attach %d" % em, "jabs %d %x" % (em, addr), "jabs %d %x call" % (em, addr), "raw %d c3" % em,
-                "jabs %d %x" % (em, other)] + fin + (["link 10000"] if k % 3 == 1 else [])
-        # (`link` = relocate_to_base stores the base address in the holder and reinit keeps it by design: only before a reset)
+                "jabs %d %x" % (em, other)] + fin + (["link 10000"] if k % 2 == 0 else [])
         recycle = (["reinit"], ["reset soft", "init x64", "attach %d" % em], ["reset hard", "init x64", "attach %d" % em])[k % 3]
         prog = ["jabs %d %x%s" % (em, addr, rng.choice(("", " call"))), "raw %d 90" % em, "jabs %d %x" % (em, addr)] + fin + \
                ["link %x" % rng.choice((0x10000, 0x7F0000000000))]
         cases.append({"recycled": ["world dynamic"] + hist + recycle + prog + ["dump"],
                       "fresh": ["world %s" % rng.choice(("dynamic", "static 4096")), "init x64", "attach %d" % em] + prog + ["dump"],
                       "nhist": len(hist), "split": (1, 1 + len(hist)), "modelled": False, "shape": "a"})
+    # (d) the documented JIT loop: generate, relocate_to_base / JitRuntime::add, reinit, generate again - the base address of
+    #     the first function must not survive reinit (a holder initialised without base emits the patchable call form again)
+    for k in range(8):
+        em = (0, 3, 0, 2)[k % 4]
+        base0 = ("", "", " 500000")[k % 3]
+        addr = 0x400100 + 0x40 * k
+        fin = [] if em == 0 else ["finalize %d" % em]
+        hist = ["init x64" + base0, "attach %d" % em, "jabs %d %x call" % (em, addr), "raw %d c3" % em] + fin + \
+               [("jitadd", "link 10000", "link 7f0000200000")[k % 3]]
+        prog = ["jabs %d %x call" % (em, addr), "raw %d 90" % em, "jabs %d %x" % (em, addr + 0x1000)] + fin + ["link 7f0000000000"]
+        cases.append({"recycled": ["world dynamic"] + hist + ["reinit"] + prog + ["dump"],
+                      "fresh": ["world dynamic", "init x64" + base0, "attach %d" % em] + prog + ["dump"],
+                      "nhist": len(hist), "split": (1, 1 + len(hist)), "modelled": False, "shape": "d"})
     # (c) two emitters attached at reset() time, first re-attached alone, then reinit()
     for (i, j) in ((0, 1), (0, 2), (2, 3), (3, 0), (2, 0), (3, 2), (1, 3), (2, 1)):
         fam = "a64" if (i + j) % 3 == 0 else "x86"
@@ -669,6 +697,7 @@ def run(res):
     res.coverage["input_distribution"] = dict(sorted(kinds.items(), key=lambda kv: -kv[1])[:60])
     res.coverage["cases"] = {"modelled": n_mod, "differential_only": n_diff, "shape_a_address_table": len([c for c in shapes if c["shape"] == "a"]),
                              "shape_b_later_function": len(fpairs), "shape_c_two_attached_at_reset": len([c for c in shapes if c["shape"] == "c"]),
+                             "shape_d_relocate_then_reinit": len([c for c in shapes if c["shape"] == "d"]),
                              "recycle_reinit": sum(1 for c in cases if "reinit" in c["recycled"][c["split"][1]:c["split"][1] + 1]),
                              "monitored_pairs": len(pairs)}
     for ci in (0, n_mod // 2, n_mod, len(cases) - 1):
